@@ -81,17 +81,49 @@ def run_harnesses(names, repo, tier, timeout=None):
         shutil.copy(os.path.join(VERIF, 'kani', 'harness_response.rs'), os.path.join(scratch, 'src', 'verif_kani_response.rs'))
         with open(os.path.join(scratch, 'src', 'response.rs'), 'a') as f:
             f.write('\n#[cfg(kani)]\n#[path = "verif_kani_response.rs"]\nmod verif_kani_response;\n')
-        cmd = ['cargo', 'kani', '-j', '8', '--output-format', 'terse']
-        for n in names:
-            cmd += ['--harness', n]
         env = dict(os.environ, CARGO_NET_OFFLINE='true', CARGO_TARGET_DIR=os.path.join(scratch, 'target'))
-        try:
-            p = subprocess.run(cmd, cwd=scratch, capture_output=True, text=True, timeout=timeout, env=env)
-            out = p.stdout + '\n' + p.stderr
-            timed_out = False
-        except subprocess.TimeoutExpired as e:
-            out = ((e.stdout or b'').decode() if isinstance(e.stdout, bytes) else (e.stdout or '')) + '\nTIMEOUT'
-            timed_out = True
+        # which harness lives in which appended file (a harness file that no longer compiles against this tree --
+        # it names a private function that was renamed or inlined -- must not take the other files down with it)
+        hfiles = {'verif_kani.rs': ('lib.rs', 'harness.rs'), 'verif_kani_request.rs': ('request.rs', 'harness_request.rs'),
+                  'verif_kani_response.rs': ('response.rs', 'harness_response.rs')}
+        where = {}
+        for hf, (_, srcname) in hfiles.items():
+            txt = open(os.path.join(VERIF, 'kani', srcname)).read()
+            for n in names:
+                if re.search(r'\bfn\s+%s\s*\(' % re.escape(n), txt):
+                    where[n] = hf
+        stale = {}   # harness -> reason
+        run_names = list(names)
+        out = ''
+        timed_out = False
+        for attempt in range(3):
+            if not run_names:
+                break
+            cmd = ['cargo', 'kani', '-j', '8', '--output-format', 'terse']
+            for n in run_names:
+                cmd += ['--harness', n]
+            try:
+                p = subprocess.run(cmd, cwd=scratch, capture_output=True, text=True, timeout=timeout, env=env)
+                out = p.stdout + '\n' + p.stderr
+                timed_out = False
+            except subprocess.TimeoutExpired as e:
+                out = ((e.stdout or b'').decode() if isinstance(e.stdout, bytes) else (e.stdout or '')) + '\nTIMEOUT'
+                timed_out = True
+            if timed_out or 'Checking harness' in out:
+                break
+            bad = [hf for hf in hfiles if re.search(r'error[^\n]*\n\s*-->\s*src/%s:' % re.escape(hf), out)]
+            if not bad:
+                break
+            for hf in bad:
+                host, _ = hfiles[hf]
+                hp = os.path.join(scratch, 'src', host)
+                txt = open(hp).read()
+                txt = re.sub(r'\n#\[cfg\(kani\)\]\n(?:#\[path = "%s"\]\n)?mod %s;\n' % (re.escape(hf), re.escape(hf[:-3])), '\n', txt)
+                open(hp, 'w').write(txt)
+                for n in list(run_names):
+                    if where.get(n) == hf:
+                        run_names.remove(n)
+                        stale[n] = 'harness does not compile against this tree (%s): %s' % (hf, (re.findall(r'error[^\n]*\n\s*-->\s*src/%s[^\n]*' % re.escape(hf), out) or [''])[0][:300])
         wall = time.time() - t0
         # split per harness (with -j the terse output is prefixed by `Thread k:`)
         per = {}
@@ -120,7 +152,9 @@ def run_harnesses(names, repo, tier, timeout=None):
                      cmd='cargo kani --harness %s (scratch copy of /repo + /verif/kani/harness*.rs)' % n, wall=round(wall, 1),
                      trusted=['kani: %s checked for %s%s' % (target, bound, '' if complete else ' (BOUNDED)')])
             b = per.get(n)
-            if b is None:
+            if n in stale:
+                h['status'] = stale[n]
+            elif b is None:
                 h['status'] = 'timeout' if timed_out else ('compile-error: ' + (compile_err or '')[-600:])
             else:
                 m = re.search(r'\*\* (\d+) of (\d+) failed', b)
